@@ -22,7 +22,7 @@ class Val:
         self.tag, self.ret = tag, ret
 
     def __call__(self, *obs):
-        return ('made', self.tag, len(obs)) if self.ret else None
+        return ('made', self.tag, tuple(R(o) for o in obs)) if self.ret else None
 
     def __repr__(self):
         return 'V%s' % self.tag
@@ -64,6 +64,8 @@ def R(x, depth=0):
         return '{' + ','.join(sorted(R(i, depth + 1) for i in x)) + '}'
     if isinstance(x, type):
         return 'cls:%s' % x.__name__
+    if isinstance(x, super):
+        return 'super(%s,%s)' % (x.__thisclass__.__name__, getattr(x.__self__, 'zname', '?'))
     zname = getattr(x, 'zname', None)
     if isinstance(zname, str):
         return 'obj:%s' % zname
@@ -253,8 +255,12 @@ class Program:
 
     def obj(self):
         r = self.rng.random()
-        if r < 0.7:
+        if r < 0.62:
             return self.rng.choice(self.objs)
+        if r < 0.7:
+            # a super proxy: adaptation and lookups see the rest of the MRO, factories get the real object
+            ob = self.rng.choice(self.objs)
+            return super(self.rng.choice(type(ob).__mro__[:-1]), ob)
         if r < 0.93:
             return self.rng.choice(self.odd)
         return self.rng.choice([None, 5, 'str', object(), NoAttrs(), self.rng.choice(self.classes)])
@@ -523,6 +529,7 @@ class Program:
         prov = self.iface() if rng.random() < 0.92 else self.weird()
         name = self.name()
         r = rng.random()
+        plain_req = req
         if r < 0.06:
             req = (x for x in req)                       # lazy, non-tuple required
         elif r < 0.1:
@@ -536,6 +543,30 @@ class Program:
                                       R(obs), R(prov), R(name))
         one = req[0] if isinstance(req, (tuple, list)) and len(req) else self.iface()
         o1 = obs[0] if obs else self.obj()
+        self._one_lookup(reg, ri, k, d, req, one, obs, o1, prov, name)
+        r2 = rng.random()
+        if r2 < 0.3 and isinstance(req, (tuple, list)):
+            # the identical call again: this time the answer comes out of the cache
+            self._one_lookup(reg, ri, k, d + '[again]', req, one, obs, o1, prov, name)
+            if r2 < 0.1:
+                # ... and through the sibling entry points that share that cache, with a default
+                self.emit(d + '[again:lookup+default]', lambda: reg.lookup(req, prov, name, 'DEFAULT'))
+                self.emit(d + '[again:lookup1+default]', lambda: reg.lookup1(one, prov, name, 'DEFAULT'))
+                self.emit(d + '[again:hook+default]', lambda: reg.adapter_hook(prov, o1, name, 'DEFAULT'))
+        elif r2 < 0.4 and isinstance(plain_req, tuple) and k in ('lookup', 'lookup_d', 'lookupAll', 'names', 'subscriptions'):
+            # the same key (cached by the call above) asked with a lazy ``required`` whose evaluation changes the
+            # registry: both implementations must resolve the arguments before they consult their caches
+            target = rng.choice(self.regs)
+            v = self.newval()
+
+            def lazy():
+                target.register(plain_req, prov if isinstance(prov, InterfaceClass) else self.ifaces[0], '', v)
+                yield from plain_req
+            self._one_lookup(reg, ri, k, d + '[lazy-mutating-required]', lazy(), one, obs, o1, prov, name)
+            self._one_lookup(reg, ri, k, d + '[after-lazy]', plain_req, one, obs, o1, prov, name)
+
+    def _one_lookup(self, reg, ri, k, d, req, one, obs, o1, prov, name):
+        p2 = prov if (self.serial + len(d)) % 3 else None      # (a function of the call, so that a repeat is identical)
         if k == 'lookup':
             self.emit(d, lambda: reg.lookup(req, prov, name))
         elif k == 'lookup_d':
@@ -549,7 +580,6 @@ class Program:
         elif k == 'names':
             self.emit(d, lambda: sorted(map(R, reg.names(req, prov))))
         elif k == 'subscriptions':
-            p2 = prov if rng.random() < 0.7 else None
             self.emit(d, lambda: list(reg.subscriptions(req, p2)))
         elif k == 'queryAdapter':
             self.emit(d, lambda: reg.queryAdapter(o1, prov, name))
@@ -562,7 +592,6 @@ class Program:
         elif k == 'queryMultiAdapter':
             self.emit(d, lambda: reg.queryMultiAdapter(obs, prov, name, 'DEFAULT'))
         elif k == 'subscribers':
-            p2 = prov if rng.random() < 0.7 else None
             self.emit(d, lambda: reg.subscribers(obs, p2))
         elif k == 'kw':
             self.emit(d + '[kw]', lambda: reg.lookup(required=req, provided=prov, name=name, default='D'))
